@@ -52,6 +52,14 @@ def _fitt(e):
     return ["tkeep", "fit", e]
 
 
+def _gen_v_or_empty(rng, d, pool):
+    """the operand of an operation that also takes an EMPTY vector: now and then a named, typed vector with no element
+    (what a filter that matches no row leaves behind) - names propagate by the same rules whatever the length"""
+    if rng.random() < 0.15:
+        return ["lit", _name(rng, pool), "empty"]
+    return gen_v(rng, d, pool)
+
+
 def gen_v(rng, d, pool):
     if d <= 0 or rng.random() < 0.2:
         return ["lit", _name(rng, pool)]
@@ -59,17 +67,17 @@ def gen_v(rng, d, pool):
     if k < 0.14:
         return ["bin", rng.choice(["add", "sub", "mul"]), _fitv(gen_v(rng, d - 1, pool)), _fitv(gen_v(rng, d - 1, pool))]
     if k < 0.24:
-        return ["bins", rng.choice(["add", "radd", "mul", "rmul", "sub", "rsub"]), gen_v(rng, d - 1, pool)]
+        return ["bins", rng.choice(["add", "radd", "mul", "rmul", "sub", "rsub"]), _gen_v_or_empty(rng, d - 1, pool)]
     if k < 0.31:
         return ["cmp", _fitv(gen_v(rng, d - 1, pool)), _fitv(gen_v(rng, d - 1, pool))]
     if k < 0.36:
-        return ["cmps", gen_v(rng, d - 1, pool)]
+        return ["cmps", _gen_v_or_empty(rng, d - 1, pool)]
     if k < 0.70:
         return ["keep", rng.choice(VKEEP), gen_v(rng, d - 1, pool)]
     if k < 0.75:
-        return ["copyas", _name(rng, pool), gen_v(rng, d - 1, pool)]
+        return ["copyas", _name(rng, pool), _gen_v_or_empty(rng, d - 1, pool)]
     if k < 0.78:
-        return ["drop", gen_v(rng, d - 1, pool)]
+        return ["drop", _gen_v_or_empty(rng, d - 1, pool)]
     t, w = gen_t(rng, d - 1, pool)
     return ["col", rng.randrange(w), t]
 
@@ -155,6 +163,13 @@ def streams(rng, tier):
             single.append({"op": "v", "e": ["bins", var, lit]})
         single.append({"op": "v", "e": ["cmps", lit]})
         single.append({"op": "v", "e": ["drop", lit]})
+        emp = ["lit", n, "empty"]
+        for var in ("add", "radd", "mul", "rmul", "sub", "rsub"):
+            single.append({"op": "v", "e": ["bins", var, emp]})
+            single.append({"op": "v", "e": ["bins", var, ["copyas", "kept", emp]]})
+        single.append({"op": "v", "e": ["cmps", emp]})
+        single.append({"op": "v", "e": ["drop", emp]})
+        single.append({"op": "v", "e": ["copyas", "b", emp]})
     for l in small:
         for r in small:
             single.append({"op": "t", "e": ["ttable", "add", _fitt(["tlit", [l, "x"], "vecs"]), _fitt(["tlit", [r, "x"], "vecs"])]})
@@ -322,6 +337,8 @@ def ev_v(e, rec, path=""):
     k = e[0]
     if k == "lit":
         r = _vec(3, e[1])
+        if len(e) > 2:                       # "empty": what a mask that matches no row leaves - typed, named, no element
+            r = r[[False, False, False]]
     elif k in ("bin", "cmp"):
         a, b = (e[2], e[3]) if k == "bin" else (e[1], e[2])
         xa, xb = _ev_fit_pair(ev_v, ev_v, a, b, rec, path)
